@@ -593,10 +593,17 @@ def oracle(script, impl):
         return None, stats        # crash / early exit is reported by the caller
     scr, conns = {}, {}
     cryptofail = False
+    registered = set()        # security types with a registered handler right now, per the script
     for op, ob in zip(ops, impl):
         t = op.split()
         if t[0] == "cryptofail" and t[1] == "1":
             cryptofail = True
+        if ob == "ok" and t[0] == "ext":
+            registered.add(int(t[1]))
+        if ob == "ok" and t[0] == "unext":
+            registered.discard(int(t[1]))
+        if ob == "ok" and t[0] == "tight":
+            (registered.add if t[1] == "1" else registered.discard)(16)
         if t[0] == "screen" and ob == "ok":
             sid = int(t[1])
             if t[2] == "none":
@@ -625,12 +632,44 @@ def oracle(script, impl):
             if t[0] in ("send", "sendnp"):
                 c["sent"] += unhx(t[2])
                 c["bounds"].append(len(c["sent"]))      # the server looked at its input at these points
+            # what was registered when the server sent its type list / read the client's choice
+            if "reg_offer" not in c and len(c["sent"]) >= 12 and t[0] != "sendnp":
+                c["reg_offer"] = set(registered)
+            if "reg_choice" not in c and len(c["sent"]) >= 13 and t[0] != "sendnp":
+                c["reg_choice"] = set(registered)
             if t[0] in ("proc", "close", "sendnp"):
                 c["disturbed"] = True
             c["out"] += o[4]
             c["states"].append(o[1])
             c["vo"] = o[3]
             c["open"] = o[2] == "open"
+    # registered security types: a type without a currently registered handler is never offered and never
+    # accepted (any screen, any connection); `ext 16` and the TightVNC extension share type 16
+    for cid, c in sorted(conns.items()):
+        s = scr.get(c["sid"])
+        if s is None or c["disturbed"]:
+            continue
+        w = split_server_stream(c["out"], s["si"])
+        builtin = 2 if (s["kind"] != "none" and not c["rev"]) else 1
+        if w is not None and w["form"] in ("3.7", "tight") and "reg_offer" in c and w["offered"]:
+            extra = [x for x in w["offered"][1:] if x not in c["reg_offer"]]
+            if w["offered"][0] != builtin or extra:
+                return ("connection %d on screen %d was offered the security types %s; built-in type %d, registered "
+                        "handlers at that moment: %s - a type that is not registered was offered"
+                        % (cid, c["sid"], w["offered"], builtin, sorted(c["reg_offer"])), stats)
+        if (w is not None or True) and "reg_choice" in c and len(c["out"]) >= 13:
+            cnt = c["out"][12]
+            listed = 12 + 1 + cnt
+            if c["out"][12:16] not in (b"\0\0\0\1", b"\0\0\0\2") and cnt > 0 and len(c["out"]) >= listed:
+                chosen = c["sent"][12]
+                if chosen != builtin and chosen not in c["reg_choice"]:
+                    after = c["out"][listed:]
+                    if after or c["open"] or c["states"][-1] != "sec":
+                        return ("connection %d on screen %d chose security type %d, which is neither its built-in "
+                                "type (%d) nor registered at that moment (%s), and was not simply closed: state %s, "
+                                "%s, server wrote %s" % (cid, c["sid"], chosen, builtin, sorted(c["reg_choice"]),
+                                                         c["states"][-1], "open" if c["open"] else "closed",
+                                                         after.hex()), stats)
     for cid, c in sorted(conns.items()):
         s = scr.get(c["sid"])
         if s is None or s["kind"] == "none" or c["rev"]:
